@@ -8,6 +8,7 @@
 #undef _ZN10QByteArray10fromBase64ERKS_
 #undef _ZN10QByteArray10fromBase64ERKS_6QFlagsINS_12Base64OptionEE
 #undef _ZNK10QByteArray5toIntEPbi
+#undef _ZNK10QByteArray7indexOfEci
 #define QBD(p) (*(QAD**)(p))
 #define C06_BD(d) (((struct qb*)(d))->data)   /* typed destination: keeps the rest of the block constant-propagated */
 static void c06_copy8(QAD *d, uint32_t off, const uint8_t *s, uint32_t n, uint32_t hint) { for (uint32_t i = 0; i < hint; i++) { if (i >= n) break; C06_BD(d)[off + i] = s[i]; } }
@@ -260,4 +261,22 @@ char* _ZN4QMapI10QByteArrayS0_E14const_iteratorppEi(char *it, uint32_t dummy) { 
 char* _ZNK4QMapI10QByteArrayS0_E14const_iterator3keyEv(char *it) { return (char*)&(*(struct c06_bent**)it)->k; }
 char* _ZNK4QMapI10QByteArrayS0_E14const_iterator5valueEv(char *it) { return (char*)&(*(struct c06_bent**)it)->v; }
 uint8_t _ZNK4QMapI10QByteArrayS0_E14const_iteratorneERKS2_(char *a, char *b) { return *(char**)a != *(char**)b; }
+#endif
+#ifdef HAVE_T_struct_QArrayData
+/* structure hint for QByteArray::indexOf: for ONE message built by the harness from fixed-length parts, the positions of the
+   grammar characters '=', '"' and ',' are registered; indexOf of one of these characters in exactly that block is answered from the
+   (concrete) list - after asserting that the list is exact - instead of scanning symbolic bytes. */
+#define C06_IXCAP 8
+static QAD *c06_ix_blk; static uint32_t c06_ix_n; static uint8_t c06_ix_c[C06_IXCAP]; static uint32_t c06_ix_p[C06_IXCAP]; static uint8_t c06_ix_checked;
+void vp_index_hint_begin(char *ba) { c06_ix_blk = QBD(ba); c06_ix_n = 0; c06_ix_checked = 0; }
+void vp_index_hint(uint8_t c, uint32_t pos) { ASSERT(c06_ix_n < C06_IXCAP && (c == '=' || c == '"' || c == ','), "index hint"); ASSERT(c06_ix_n == 0 || c06_ix_p[c06_ix_n - 1] < pos, "index hint: ascending positions"); c06_ix_c[c06_ix_n] = c; c06_ix_p[c06_ix_n] = pos; c06_ix_n++; }
+uint32_t _ZNK10QByteArray7indexOfEci(char *self, uint8_t c, uint32_t from) { QAD *d = QBD(self);
+  if (d != c06_ix_blk || !(c == '=' || c == '"' || c == ',')) return qtcore_QByteArray_indexOf(self, c, from);
+  if ((int32_t)from < 0) from = 0;
+  if (!c06_ix_checked) { c06_ix_checked = 1; uint32_t n = d->f1, k = 0;
+    for (uint32_t i = 0; i < QB_CAP; i++) { if (i >= n) break; uint8_t b = qb_bytes(d)[i]; uint8_t isg = (b == '=' || b == '"' || b == ',');
+      if (k < c06_ix_n && c06_ix_p[k] == i) { ASSERT(b == c06_ix_c[k], "index hint: registered character is there"); k++; } else ASSERT(!isg, "index hint: no unregistered grammar character"); }
+    ASSERT(k == c06_ix_n, "index hint: positions inside the message"); }
+  for (uint32_t k = 0; k < C06_IXCAP; k++) { if (k >= c06_ix_n) break; if (c06_ix_c[k] == c && c06_ix_p[k] >= from) return c06_ix_p[k]; }
+  return (uint32_t)-1; }
 #endif
